@@ -44,6 +44,8 @@ const (
 
 func isSession(b string) bool { return strings.HasPrefix(b, "session") }
 
+var ehNames = []string{"default", "custom-returns-error", "custom-writes-403-returns-nil", "custom-returns-nil"}
+
 // scheme modes
 const (
 	smHTTP       = iota // plain http
@@ -84,11 +86,15 @@ type hcfg struct {
 	tokStyle      int
 	reuseCtx      bool // one fasthttp.RequestCtx for the whole history, as on a keep-alive connection
 	customMethods bool // the app registers extension methods (Config.RequestMethods)
+	// errHandler: Config.ErrorHandler — 0 default (returns 403 error), 1 custom returning an error,
+	// 2 custom that writes its own 403 response and returns nil, 3 custom that returns nil without
+	// writing anything. The verdict never depends on it: did the protected handler run.
+	errHandler int
 }
 
 func (h *hcfg) String() string {
-	return fmt.Sprintf("backend=%s extractor=%s keylookup=%v decoy-keylookup=%q singleuse=%v idle=%s cookie=%s mode=%s host=%s trusted=%q reusectx=%v tokstyle=%d custom-methods=%v",
-		h.backend, h.extractor, h.keyLookup, h.decoy, h.singleUse, h.idle, h.cookieName, smNames[h.mode], h.host, h.trustedCfg, h.reuseCtx, h.tokStyle, h.customMethods)
+	return fmt.Sprintf("backend=%s extractor=%s keylookup=%v decoy-keylookup=%q singleuse=%v idle=%s cookie=%s mode=%s host=%s trusted=%q reusectx=%v tokstyle=%d custom-methods=%v errorhandler=%s",
+		h.backend, h.extractor, h.keyLookup, h.decoy, h.singleUse, h.idle, h.cookieName, smNames[h.mode], h.host, h.trustedCfg, h.reuseCtx, h.tokStyle, h.customMethods, ehNames[h.errHandler])
 }
 
 type entry struct {
@@ -188,6 +194,18 @@ func newWorld(cfg *hcfg, plan *faultPlan) *world {
 			w.genReq = append(w.genReq, t)
 			return t
 		},
+	}
+	switch cfg.errHandler {
+	case 1:
+		cc.ErrorHandler = func(_ fiber.Ctx, err error) error {
+			return fiber.NewError(fiber.StatusTeapot, "csrf: "+err.Error())
+		}
+	case 2:
+		cc.ErrorHandler = func(c fiber.Ctx, _ error) error {
+			return c.Status(fiber.StatusForbidden).SendString("denied")
+		}
+	case 3:
+		cc.ErrorHandler = func(fiber.Ctx, error) error { return nil }
 	}
 	if cfg.keyLookup {
 		switch cfg.extractor {
@@ -709,6 +727,7 @@ func genCfg(r *gen.Rand, backends []string) *hcfg {
 		reuseCtx:      r.Bool(),
 		tokStyle:      r.Intn(5),
 		customMethods: r.Chance(1, 3),
+		errHandler:    r.PickW(5, 2, 3, 2),
 	}
 	if r.Chance(1, 40) {
 		cfg.idle = 30 * time.Minute
@@ -1189,7 +1208,7 @@ func (rn *runner) step(s *step) {
 			} else {
 				e.Stat("fault_safe_request_rejected", 1)
 			}
-		} else if resp.Status != 200 {
+		} else if resp.Status != 200 && cfg.errHandler == 0 {
 			rn.viol("status|safe-reached-not-200", "handler ran but status is not the handler's", map[string]any{"status": resp.Status})
 		}
 		ckBefore, _ := m.status(q.ck, q.sid, now)
@@ -1329,7 +1348,7 @@ func (rn *runner) step(s *step) {
 			e.Stat("origin_unasserted_rejected|"+sigClass, 1)
 		}
 		// documented: a default 403
-		if resp.Status != 403 {
+		if resp.Status != 403 && cfg.errHandler == 0 {
 			rn.viol("status|rejected-not-403", "rejected unsafe request did not get the documented 403", map[string]any{"status": resp.Status})
 		}
 		if present && match && extBefore == stDead && ov != vMustNotReach {
@@ -1350,7 +1369,7 @@ func (rn *runner) step(s *step) {
 	if ov == vNoAssert && present && match && extBefore == stLive {
 		e.Stat("origin_unasserted_accepted|"+sigClass, 1)
 	}
-	if resp.Status != 200 {
+	if resp.Status != 200 && cfg.errHandler == 0 {
 		rn.viol("status|unsafe-reached-not-200", "handler ran but status is not the handler's", map[string]any{"status": resp.Status})
 	}
 	// reached: consumption / extension, then whatever the response handed out
@@ -1405,6 +1424,10 @@ func (rn *runner) applyDelete(q *wire, delErr string, handlerFault bool) {
 		hit = append(hit, ti)
 	}
 	switch {
+	case q.ck == "":
+		// no CSRF cookie in the request: DeleteToken has nothing to go by and only calls the
+		// ErrorHandler (whose result, possibly nil, it returns) — nothing is deleted
+		rn.e.Stat("delete_token_without_cookie_nothing_deleted", 1)
 	case handlerFault:
 		rn.e.Stat("delete_token_under_store_fault_state_unknown", 1)
 		for _, ti := range hit {
